@@ -345,6 +345,8 @@ class Ref:
 
         if len(refs) == 1 and s == "{" + refs[0] + "}":
             return finish(str(self.subst(val_of(refs[0]), o)))
+        # option references are substituted textually and the result is resolved again (confectioner's semantics: a
+        # container value is inserted in its raw string form and templated strings inside it are resolved afterwards)
         out = s
         for r in refs:
             out = out.replace("{" + r + "}", str(val_of(r)))
